@@ -454,6 +454,13 @@ func (s *indexKVStore) FindValuesByLike(bucketID uint32, like string, ids []uint
 	switch {
 	case like == "":
 		return nil, nil
+	// only *, all values match
+	case like == "*":
+		values, err := s.GetValues(bucketID)
+		if err != nil {
+			return nil, err
+		}
+		return append(ids, values...), nil
 	// only ends with *
 	case !hashPrefix && hasSuffix:
 		prefix := likeSlice[:len(likeSlice)-1]
